@@ -6,10 +6,14 @@
 (* in an edit buffer; on Enter it either keeps collecting (the line break *)
 (* becomes one space) or hands the buffered statements to the engine.     *)
 (*                                                                        *)
-(* Characters are byte values (TLC cannot index strings).  A literal is   *)
-(* opened by ' or " and closed by the same character.  (mkdb's scanner    *)
-(* also knows backslash escapes, backquoted strings and comments; they    *)
-(* are outside the alphabet C20 quantifies over and are not modelled.)    *)
+(* Characters are byte values (TLC cannot index strings; multi-byte       *)
+(* characters are simply several bytes >= 128).  A literal is opened by ' *)
+(* or " and closed by the same character.  Inside a literal a backslash   *)
+(* has the meaning mkdb's SQL scanner gives it: the next character is     *)
+(* taken literally, so \' does not close the literal and \\ is one escaped *)
+(* backslash after which a quote does close it.  Outside literals the     *)
+(* backslash is an ordinary character.  (Backquoted strings and comments  *)
+(* are outside what C20 quantifies over and are not modelled.)            *)
 (*                                                                        *)
 (* Two things are defined here, on purpose independently:                 *)
 (*   - the machine (buf, inQuote, out; Key(c), Enter): what a correct     *)
@@ -18,21 +22,24 @@
 (*     whole typed input that says which statements the engine must get.  *)
 (* TLC checks that the machine satisfies the reference meaning; the       *)
 (* replay harness checks that the real Terminal.ReadLine does.            *)
-EXTENDS Integers, Sequences, FiniteSets, TLC
+EXTENDS Integers, Sequences, SequencesExt, FiniteSets, TLC
 
-CONSTANTS Letters          \* byte values of ordinary characters, e.g. {97}
+CONSTANTS Letters,         \* byte values of ordinary characters, e.g. {97}
+          Extra            \* further characters the bounded generator types: {} or {BS}
 
 SP   == 32                 \* space
 SEMI == 59                 \* ;
 SQ   == 39                 \* '
 DQ   == 34                 \* "
+BS   == 92                 \* backslash
 CR   == 13                 \* the Enter key (line break)
 Quotes == {SQ, DQ}
-Chars  == Letters \cup {SP, SEMI, SQ, DQ}
+Chars  == Letters \cup {SP, SEMI, SQ, DQ} \cup Extra
 IsWS(c) == c \in {SP, CR}
 
 VARIABLES buf,             \* edit buffer: characters collected since the last hand-over
-          inQuote,         \* 0, or the quote character of the literal the buffer end is inside of
+          inQuote,         \* lexical state at the buffer end: 0 outside literals, q inside a literal
+                           \* opened by q, -q inside it right after a backslash (next char is literal)
           out,             \* statements handed to the engine so far, in order
           typed            \* ghost: every key pressed so far (CR for Enter)
 
@@ -41,47 +48,49 @@ conVars == <<buf, inQuote, out, typed>>
 -----------------------------------------------------------------------------
 (* Quote tracking and the reference meaning                                *)
 
+\* lexical state: 0 = outside literals; q \in Quotes = inside a literal opened by q;
+\* -q = inside that literal, the previous character was an escaping backslash
 QNext(q, c) == IF q = 0 THEN (IF c \in Quotes THEN c ELSE 0)
-               ELSE (IF c = q THEN 0 ELSE q)
+               ELSE IF q < 0 THEN -q                      \* escaped character: taken literally
+               ELSE IF c = BS THEN -q
+               ELSE IF c = q THEN 0 ELSE q
 
-RECURSIVE QAt(_, _)        \* quote state after the first i characters of s
-QAt(s, i) == IF i = 0 THEN 0 ELSE QNext(QAt(s, i - 1), s[i])
+\* lexical states after each character of s (one left-to-right pass; FoldLeft is iterative in TLC)
+QStates(s) == FoldLeft(LAMBDA acc, c : Append(acc, QNext(IF acc = <<>> THEN 0 ELSE acc[Len(acc)], c)), <<>>, s)
+QAt(s, i) == IF i = 0 THEN 0 ELSE QStates(s)[i]   \* state after the first i characters of s
 
-\* positions of the semicolons that end a statement: those outside literals
-Terminators(s) == {i \in 1..Len(s) : s[i] = SEMI /\ QAt(s, i - 1) = 0}
+\* positions of the semicolons that end a statement: those outside literals (ascending)
+TermSeq(s) == LET qs == QStates(s)
+              IN  SelectSeq([i \in 1..Len(s) |-> i],
+                            LAMBDA i : s[i] = SEMI /\ (IF i = 1 THEN 0 ELSE qs[i - 1]) = 0)
+Terminators(s) == {TermSeq(s)[k] : k \in 1..Len(TermSeq(s))}
 
-\* s cut after each position in T (ascending), every piece up to and including its cut
-StmtsAt(s, T) ==
-  LET Nth(k) == CHOOSE i \in T : Cardinality({j \in T : j < i}) = k - 1
-  IN  [k \in 1..Cardinality(T) |-> SubSeq(s, IF k = 1 THEN 1 ELSE Nth(k - 1) + 1, Nth(k))]
+\* s cut after each position in ts (ascending), every piece up to and including its cut
+StmtsAt(s, ts) == [k \in 1..Len(ts) |-> SubSeq(s, IF k = 1 THEN 1 ELSE ts[k - 1] + 1, ts[k])]
 
 \* the complete statements contained in s, each up to and including its terminator
-StmtsOf(s) == StmtsAt(s, Terminators(s))
-
-\* what follows the last terminator
-TailOf(s) == LET T == Terminators(s)
-                 last == IF T = {} THEN 0 ELSE CHOOSE i \in T : \A j \in T : j <= i
-             IN  SubSeq(s, last + 1, Len(s))
+StmtsOf(s) == StmtsAt(s, TermSeq(s))
 
 \* "equal up to whitespace between tokens": runs of blanks and line breaks outside
 \* literals count as one blank, at either end as none; inside a literal every byte counts
-RECURSIVE NormFrom(_, _, _, _, _)
-NormFrom(s, i, q, acc, pend) ==
-  IF i > Len(s) THEN acc
-  ELSE LET c == s[i] IN
-       IF q = 0 /\ IsWS(c) THEN NormFrom(s, i + 1, 0, acc, acc # <<>>)
-       ELSE NormFrom(s, i + 1, QNext(q, c), IF pend THEN acc \o <<SP, c>> ELSE Append(acc, c), FALSE)
-Norm(s) == NormFrom(s, 1, 0, <<>>, FALSE)
+Norm(s) ==
+  FoldLeft(LAMBDA st, c :
+             IF st.q = 0 /\ IsWS(c) THEN [q |-> 0, acc |-> st.acc, pend |-> st.acc # <<>>]
+             ELSE [q |-> QNext(st.q, c),
+                   acc |-> IF st.pend THEN st.acc \o <<SP, c>> ELSE Append(st.acc, c),
+                   pend |-> FALSE],
+           [q |-> 0, acc |-> <<>>, pend |-> FALSE], s).acc
 
-\* the literals of s, each from its opening to its closing quote (for the explicit clause)
-RECURSIVE LitsFrom(_, _, _, _, _)
-LitsFrom(s, i, q, cur, acc) ==
-  IF i > Len(s) THEN (IF q = 0 THEN acc ELSE Append(acc, cur))
-  ELSE LET c == s[i]  q2 == QNext(q, c) IN
-       IF q = 0 /\ q2 = 0 THEN LitsFrom(s, i + 1, 0, <<>>, acc)
-       ELSE IF q2 = 0 THEN LitsFrom(s, i + 1, 0, <<>>, Append(acc, Append(cur, c)))
-       ELSE LitsFrom(s, i + 1, q2, Append(cur, c), acc)
-Literals(s) == LitsFrom(s, 1, 0, <<>>, <<>>)
+\* the literals of s, each from its opening to its closing quote, byte for byte
+\* (an unclosed literal at the end counts with what there is of it)
+Literals(s) ==
+  LET r == FoldLeft(LAMBDA st, c :
+                      LET q2 == QNext(st.q, c) IN
+                      IF st.q = 0 /\ q2 = 0 THEN st
+                      ELSE IF q2 = 0 THEN [q |-> 0, cur |-> <<>>, acc |-> Append(st.acc, Append(st.cur, c))]
+                      ELSE [q |-> q2, cur |-> Append(st.cur, c), acc |-> st.acc],
+                    [q |-> 0, cur |-> <<>>, acc |-> <<>>], s)
+  IN  IF r.q = 0 THEN r.acc ELSE Append(r.acc, r.cur)
 
 \* C20: the engine got exactly the typed statements, once each, in order
 Accept(want, got) == /\ Len(got) = Len(want)
@@ -126,7 +135,7 @@ ConNext == (\E c \in Chars : Key(c)) \/ (inQuote = 0 /\ Enter)
 -----------------------------------------------------------------------------
 (* Properties of the machine                                               *)
 
-TypeOK == /\ inQuote \in {0, SQ, DQ}
+TypeOK == /\ inQuote \in {0, SQ, DQ, -SQ, -DQ}
           /\ inQuote = QAt(buf, Len(buf))
 
 \* what was handed over so far are the first typed statements, nothing else, nothing twice
@@ -139,9 +148,6 @@ Faithful == (buf = <<>>) => (Accept(StmtsOf(typed), out) /\ LiteralsIntact(Stmts
 
 \* the buffer holds exactly what was typed since the last hand-over (up to blanks):
 \* nothing typed is dropped, nothing is kept after it was handed over
-AfterNth(s, n) == IF n = 0 THEN s
-                  ELSE LET T == Terminators(s)
-                           t == CHOOSE i \in T : Cardinality({j \in T : j < i}) = n - 1
-                       IN  SubSeq(s, t + 1, Len(s))
+AfterNth(s, n) == IF n = 0 THEN s ELSE SubSeq(s, TermSeq(s)[n] + 1, Len(s))
 BufIsRest == Norm(buf) = Norm(AfterNth(typed, Len(out)))
 =============================================================================
